@@ -74,6 +74,7 @@ def err_variants(v):
 
 def explore(ctx, fn, **kw):
     ctx.saw(fn)
+    kw.setdefault('facts', ctx.facts())
     res = Explorer(fn, **kw).run()
     ctx.analysed['paths'] += len(res)
     return res
